@@ -91,8 +91,41 @@ func VerifC08Graveyard() {
 			x.open = false
 		}
 	}
+	// STEPS: bit mask of allowed step kinds (0 = steps 0..STEPMAX)
+	var menu []int
+	for st := 0; st <= 8; st++ {
+		if m := vnd.Param("STEPS", 0); (m == 0 && st <= vnd.Param("STEPMAX", 4)) || m&(1<<st) != 0 {
+			menu = append(menu, st)
+		}
+	}
 	for i := 0; i < N; i++ {
-		switch vnd.IntRange("step", 0, vnd.Param("STEPMAX", 4)) {
+		switch menu[vnd.IntRange("step", 0, len(menu)-1)] {
+		case 8: // a writer holds the table while the collector scans, re-inserts keys, commits
+			w := d.db.WriteTxn(t)
+			vnd.Sleep(tick) // the collector (if triggered) scans lock-free and then waits for the table
+			vnd.Settle()
+			for _, ks := range []string{"a", "b"} {
+				if vnd.Bool("reinsert") {
+					t.Insert(w, &vobj{id: []byte(ks)})
+					committed.rev++
+					committed.revs.Put([]byte(ks), committed.rev)
+				}
+			}
+			w.Commit()
+			vnd.Settle()
+			vnd.Cover("C08.writer-held-table-during-scan")
+		case 7: // an iterator consumes only the first pending change of a fresh snapshot
+			if len(its) == 0 {
+				vnd.Assume(false)
+			}
+			x := its[vnd.IntRange("it", 0, len(its)-1)]
+			if !x.open {
+				vnd.Assume(false)
+			}
+			seq, _ := x.it.Next(d.db.ReadTxn())
+			if x.s.consume(seq, 1) == 1 {
+				vnd.Cover("C08.partial")
+			}
 		case 5: // a new iterator is created
 			if len(its) >= 3 {
 				vnd.Assume(false)
